@@ -216,7 +216,7 @@ void h_lookup(void)
 void w_remove1(long long* item, long long* key, int themax, int* thesize, int* thenum, int* firstfree, int removenum, int bykey, const int* rank)
 __CPROVER_requires(FRESH_SET && S_OK)
 __CPROVER_requires(INV_ALL)
-__CPROVER_requires(g_n0 == NM && g_s0 == SZ && g_c0 == SZ - NM && (!bykey || ISNUM(removenum)))
+__CPROVER_requires(g_n0 == NM && g_s0 == SZ && g_c0 == SZ - NM && bykey == BYKEY && (!bykey || ISNUM(removenum)))
 __CPROVER_requires(!ISNUM(removenum) || g_x == KIDX(removenum))
 /* g_h: an element (old number) with its key and data;  g_i: a cell with its old info */
 __CPROVER_requires(!ISNUM(g_h) || (v_kidx == KIDX(g_h) && v_dat == DAT(KIDX(g_h))))
@@ -237,6 +237,128 @@ void h_remove1(void)
    long long* item; long long* key; int themax; int* thesize; int* thenum; int* firstfree; int removenum, bykey; const int* rank;
    havoc_ghosts();
    w_remove1(item, key, themax, thesize, thenum, firstfree, removenum, bykey, rank);
+   CANARY();
+}
+#endif
+
+/* ---------------------------------------------------------------------------------------------------------------- */
+#if defined(INST_removePerm) || defined(INST_removeNums)
+/* remove(int perm[]) and remove(const int* nums, int n, int* perm).
+ * Specification ghosts (defined by the precondition, cell by cell, from the pre state; they restrict no real input):
+ *   REMOVED(k)  element number k is to be removed  (perm: perm[k] < 0 on entry;  nums: isrem[k], with isrem[k] <=> k in nums[0..n))
+ *   cnt[k]      number of survivors among the elements 0..k-1        (cnt[0] = 0, cnt[k+1] = cnt[k] + !REMOVED(k))
+ *   rank2[c]    rank of cell c in the free list of the post state: the cell of removed element k is pushed as number
+ *               (k - cnt[k]) after the old free cells; other cells keep rank[c]
+ * Postcondition (C19 "removal by permutation reports where each survivor moved", C06 "documented renumbering"):
+ *   num() == cnt[old num()];  removed g: perm[g] < 0 (nums: == -1), its key is dead;
+ *   survivor g: perm[g] == cnt[g] (so 0 <= perm[g] <= g, < num(), and survivors keep their relative order: g < g' =>
+ *   perm[g] < perm[g'], stated explicitly), element perm[g] of the new set has g's old key and g's old DATA;
+ *   INV holds again (K at every new number = dense numbering 0..num()-1). */
+static int cnt_def(cip remflag, cip cnt, int nm, int k, int byperm)
+{
+   if(!(0 <= k && k < nm)) return 1;
+   int removed = byperm ? (remflag[k] < 0) : (remflag[k] != 0);
+   return cnt[k + 1] == cnt[k] + (removed ? 0 : 1);
+}
+static int rank2_def(clp item, cip remflag, cip cnt, cip rank, cip rank2, int sz, int nm, int c, int byperm)
+{
+   if(!(0 <= c && c < sz)) return 1;
+   int f = HI32(item[c]);
+   if(0 <= f && f < nm && (byperm ? (remflag[f] < 0) : (remflag[f] != 0)))
+      return rank2[c] == (sz - nm) + (f - cnt[f]);
+   return rank2[c] == rank[c];
+}
+#define R123_AT2(i)   r123_at(item, rank2, themax, SZ, NM, i, -1, 0)
+#define R4_AT2(a, b)  r4_at(item, rank2, SZ, a, b, -1, 0)
+#define R05_OK2       r05(item, rank2, themax, SZ, NM, FF, -1, 0)
+#define INV_GHOSTS2 (K_AT(g_g) && U_AT(g_i) && U_AT(g_j) && R05_OK2 && R123_AT2(g_i) && R123_AT2(g_j) && R4_AT2(g_i, g_j))
+#define FRESH_PERM (__CPROVER_is_fresh(perm, ALLOC_N * sizeof(int)) && __CPROVER_is_fresh(cnt, (ALLOC_N + 1) * sizeof(int)) \
+   && __CPROVER_is_fresh(rank2, ALLOC_N * sizeof(int)))
+#endif
+
+#ifdef INST_removePerm
+#define P_CNT(k)   cnt_def(perm, cnt, NM, k, 1)
+#define P_RANK2(c) rank2_def(item, perm, cnt, rank, rank2, SZ, NM, c, 1)
+void w_removePerm(long long* item, long long* key, int themax, int* thesize, int* thenum, int* firstfree, int* perm,
+                  const int* rank, const int* cnt, const int* rank2)
+__CPROVER_requires(FRESH_SET && FRESH_PERM && S_OK)
+__CPROVER_requires(INV_ALL)
+__CPROVER_requires(cnt[0] == 0 && REP_ALL(P_CNT) && REP_ALL(P_RANK2))
+__CPROVER_requires(g_n0 == NM && g_s0 == SZ)
+__CPROVER_requires(!ISNUM(g_h) || (v_kidx == KIDX(g_h) && v_dat == DAT(KIDX(g_h)) && v_a == perm[g_h]))
+__CPROVER_requires(!ISNUM(g_x) || v_b == perm[g_x])
+__CPROVER_assigns(__CPROVER_object_whole(item), __CPROVER_object_whole(key), __CPROVER_object_whole(perm), *thesize, *thenum, *firstfree)
+ENSURES(NM == cnt[g_n0] && SZ == g_s0 && S_OK)
+ENSURES(!(0 <= g_h && g_h < g_n0 && v_a < 0) || (perm[g_h] == v_a && INFO(v_kidx) < 0))
+ENSURES(!(0 <= g_h && g_h < g_n0 && v_a >= 0)
+        || (perm[g_h] == cnt[g_h] && 0 <= perm[g_h] && perm[g_h] < NM && perm[g_h] <= g_h
+            && KIDX(perm[g_h]) == v_kidx && INFO(v_kidx) == perm[g_h] && DAT(v_kidx) == v_dat))
+ENSURES(!(0 <= g_h && g_h < g_x && g_x < g_n0 && v_a >= 0 && v_b >= 0) || perm[g_h] < perm[g_x])
+ENSURES(INV_GHOSTS2)
+;
+void h_removePerm(void)
+{
+   long long* item; long long* key; int themax; int* thesize; int* thenum; int* firstfree; int* perm;
+   const int* rank; const int* cnt; const int* rank2;
+   havoc_ghosts();
+   w_removePerm(item, key, themax, thesize, thenum, firstfree, perm, rank, cnt, rank2);
+   CANARY();
+}
+#endif
+
+#ifdef INST_removeNums
+#ifdef EXACT_ALLOC
+#define NUMS_N (n > 0 ? n : 1)
+#else
+#define NUMS_N CAP
+#endif
+#define P_CNT(k)   cnt_def(isrem, cnt, NM, k, 0)
+#define P_RANK2(c) rank2_def(item, isrem, cnt, rank, rank2, SZ, NM, c, 0)
+/* isrem[g] <=> g occurs in nums[0..n): every listed number is flagged, every flag has a witness position */
+#define P_LISTED(k) (!((k) < n) || (0 <= nums[k] && nums[k] < NM && isrem[nums[k]] == 1))
+#define P_WIT(g)    (!((g) < NM) || isrem[g] == 0 || (isrem[g] == 1 && 0 <= wit[g] && wit[g] < n && nums[wit[g]] == (g)))
+void w_removeNums(long long* item, long long* key, int themax, int* thesize, int* thenum, int* firstfree,
+                  const int* nums, int n, int* perm, const int* rank, const int* cnt, const int* rank2, const int* isrem, const int* wit)
+__CPROVER_requires(FRESH_SET && FRESH_PERM && S_OK && 0 <= n && n <= CAP)
+__CPROVER_requires(__CPROVER_is_fresh(nums, NUMS_N * sizeof(int)) && __CPROVER_is_fresh(isrem, ALLOC_N * sizeof(int)) && __CPROVER_is_fresh(wit, ALLOC_N * sizeof(int)))
+__CPROVER_requires(INV_ALL)
+__CPROVER_requires(REP_ALL(P_LISTED) && REP_ALL(P_WIT))
+__CPROVER_requires(cnt[0] == 0 && REP_ALL(P_CNT) && REP_ALL(P_RANK2))
+__CPROVER_requires(g_n0 == NM && g_s0 == SZ)
+__CPROVER_requires(!ISNUM(g_h) || (v_kidx == KIDX(g_h) && v_dat == DAT(KIDX(g_h)) && v_a == isrem[g_h]))
+__CPROVER_requires(!ISNUM(g_x) || v_b == isrem[g_x])
+__CPROVER_assigns(__CPROVER_object_whole(item), __CPROVER_object_whole(key), __CPROVER_object_whole(perm), *thesize, *thenum, *firstfree)
+ENSURES(NM == cnt[g_n0] && SZ == g_s0 && S_OK)
+ENSURES(!(0 <= g_h && g_h < g_n0 && v_a != 0) || (perm[g_h] == -1 && INFO(v_kidx) < 0))
+ENSURES(!(0 <= g_h && g_h < g_n0 && v_a == 0)
+        || (perm[g_h] == cnt[g_h] && 0 <= perm[g_h] && perm[g_h] < NM && perm[g_h] <= g_h
+            && KIDX(perm[g_h]) == v_kidx && INFO(v_kidx) == perm[g_h] && DAT(v_kidx) == v_dat))
+ENSURES(!(0 <= g_h && g_h < g_x && g_x < g_n0 && v_a == 0 && v_b == 0) || perm[g_h] < perm[g_x])
+ENSURES(INV_GHOSTS2)
+;
+void h_removeNums(void)
+{
+   long long* item; long long* key; int themax; int* thesize; int* thenum; int* firstfree; const int* nums; int n; int* perm;
+   const int* rank; const int* cnt; const int* rank2; const int* isrem; const int* wit;
+   havoc_ghosts();
+   w_removeNums(item, key, themax, thesize, thenum, firstfree, nums, n, perm, rank, cnt, rank2, isrem, wit);
+   CANARY();
+}
+#endif
+
+/* ---------------------------------------------------------------------------------------------------------------- */
+#ifdef INST_clear
+/* clear(): the empty set; INV holds (no cell is in use, the free list is empty) */
+void w_clear(long long* item, long long* key, int themax, int* thesize, int* thenum, int* firstfree, const int* rank)
+__CPROVER_requires(FRESH_SET)
+__CPROVER_assigns(*thesize, *thenum, *firstfree)
+ENSURES(SZ == 0 && NM == 0 && FF == END && S_OK && INV_GHOSTS(-1, 0))
+;
+void h_clear(void)
+{
+   long long* item; long long* key; int themax; int* thesize; int* thenum; int* firstfree; const int* rank;
+   havoc_ghosts();
+   w_clear(item, key, themax, thesize, thenum, firstfree, rank);
    CANARY();
 }
 #endif
